@@ -92,7 +92,8 @@ class IsoDepInitiator(object):
 
             wait = timeout
             n_retransmit = 0
-            for i in itertools.count(start=1):  # pragma: no branch
+            i = 0  # failed attempts, a waiting time extension is not one
+            while True:
                 try:
                     data = self.clf.exchange(data, wait)
                     wait = timeout
@@ -112,6 +113,7 @@ class IsoDepInitiator(object):
                         continue
                     break
                 except nfc.clf.TransmissionError:
+                    i += 1
                     if i <= self.n_retry_nak:
                         log.warning("ISO-DEP transmission error (#%d)" % i)
                         data = bytearray([0xB2 | self.pni])
@@ -119,6 +121,7 @@ class IsoDepInitiator(object):
                         log.error("ISO-DEP unrecoverable transmission error")
                         raise Type4TagCommandError(nfc.tag.RECEIVE_ERROR)
                 except nfc.clf.TimeoutError:
+                    i += 1
                     if i <= self.n_retry_nak:
                         log.warning("ISO-DEP timeout error (#%d)" % i)
                         data = bytearray([0xB2 | self.pni])
@@ -151,7 +154,8 @@ class IsoDepInitiator(object):
             data = pack('B', 0xA2 | self.pni)  # ACK
 
             wait = timeout
-            for i in itertools.count(start=1):  # pragma: no branch
+            i = 0  # failed attempts, a waiting time extension is not one
+            while True:
                 try:
                     data = self.clf.exchange(data, wait)
                     wait = timeout
@@ -163,6 +167,7 @@ class IsoDepInitiator(object):
                         continue
                     break
                 except nfc.clf.TransmissionError:
+                    i += 1
                     if i <= self.n_retry_ack:
                         log.warning("ISO-DEP transmission error  (#%d)" % i)
                         data = bytearray([0xA2 | self.pni])
@@ -170,6 +175,7 @@ class IsoDepInitiator(object):
                         log.error("ISO-DEP unrecoverable transmission error")
                         raise Type4TagCommandError(nfc.tag.RECEIVE_ERROR)
                 except nfc.clf.TimeoutError:
+                    i += 1
                     if i <= self.n_retry_ack:
                         log.warning("ISO-DEP timeout error (#%d)" % i)
                         data = bytearray([0xA2 | self.pni])
